@@ -8,5 +8,7 @@ if [ -d cmd/vchild ]; then go build -o work/bin/vchild ./cmd/vchild || exit 2; f
 # generate the overlay from the current /repo tree and warm the build cache
 work/bin/rewrite -repo /repo -out work/overlay || exit 2
 go build -tags verif -overlay work/overlay/overlay.json -o work/bin/vdrv.new ./cmd/vdrv || exit 2
+# warm the race-detector build used by the auxiliary pass of C16
+go build -race -tags verif -overlay work/overlay/overlay.json -o work/bin/vdrv-race ./cmd/vdrv || exit 2
 ls keys/*.pem > /dev/null || { echo "key pool missing"; exit 2; }
 echo setup ok
